@@ -9,29 +9,6 @@ set_option maxRecDepth 2000
 namespace StarsimModel.C10
 open StarsimModel.Arr StarsimModel.People
 
-/-- The bookkeeping invariant of a population with `n = uid.len_used` identifiers. -/
-structure Inv (p : People) : Prop where
-  uid : WF p.n p.uid
-  slot : WF p.n p.slot
-  parent : WF p.n p.parent
-  alive : WF p.n p.alive
-  tiDead : WF p.n p.tiDead
-  states : ∀ a ∈ p.states, WF p.n a
-  statesDefault : ∀ a ∈ p.states, ∀ us, (defaultVals a us).length = us.length
-  dense : ∀ u, u < p.n → p.uid.cell u = .num (u : Rat)
-  active : ∀ u ∈ p.auids, u < p.n
-  nodup : p.auids.Nodup
-  aliveKind : p.alive.kind = .bool ∧ p.alive.default = .const (.bool true)
-  tiDeadDefault : p.tiDead.default = .unset
-  aliveBool : ∀ u, u < p.n → ∃ b, p.alive.cell u = .bool b
-  removedDead : ∀ u, u < p.n → u ∉ p.auids → p.alive.cell u = .bool false
-
-/-- operations the code accepts: explicit slots come one per new agent; death requests name created agents -/
-def OpOk (p : People) : Op → Prop
-  | .grow k slots => ∀ s, slots = some s → s.length = k
-  | .requestDeath us => ∀ u ∈ us, u < p.n
-  | _ => True
-
 theorem growAll_spec (n k : Nat) : ∀ (l : List Arr), (∀ a ∈ l, WF n a) → (∀ a ∈ l, ∀ us, (defaultVals a us).length = us.length) →
     ∃ l', growAll l (newIds n k) = .ok l' ∧ l'.length = l.length ∧ (∀ a ∈ l', WF (n + k) a) ∧
       (∀ a ∈ l', ∀ us, (defaultVals a us).length = us.length) ∧
@@ -103,7 +80,7 @@ theorem grow_step (p : People) (k : Nat) (slots : Option (List Nat)) (inv : Inv 
     obtain ⟨parent', hp, wp, _, _, _, cp⟩ := grow_spec' p.parent p.n k inv.parent (some (.scalar p.parent.nan)) (.scalar p.parent.nan) rfl rfl
     obtain ⟨alive', ha, wa, _, had, hak, ca⟩ := grow_spec' p.alive p.n k inv.alive none (.scalar (.bool true))
       (by simp [defaultRhs, inv.aliveKind.2]) rfl
-    obtain ⟨td', ht, wt, htn, htd, _, ct⟩ := grow_spec' p.tiDead p.n k inv.tiDead none (.scalar p.tiDead.nan)
+    obtain ⟨td', ht, wt, htn, htd, htk, ct⟩ := grow_spec' p.tiDead p.n k inv.tiDead none (.scalar p.tiDead.nan)
       (by simp [defaultRhs, inv.tiDeadDefault]) rfl
     obtain ⟨st', hst, hlen, wst, dst, cst⟩ := growAll_spec p.n k p.states inv.states inv.statesDefault
     have hn : uid'.lenUsed = p.n + k := wu.used
@@ -145,6 +122,7 @@ theorem grow_step (p : People) (k : Nat) (slots : Option (List Nat)) (inv : Inv 
         omega
       · exact ⟨by show alive'.kind = _; rw [hak]; exact inv.aliveKind.1, by show alive'.default = _; rw [had]; exact inv.aliveKind.2⟩
       · show td'.default = _; rw [htd]; exact inv.tiDeadDefault
+      · show td'.kind = _; rw [htk]; exact inv.tiDeadKind
       · rw [hn']; intro u hu'
         show ∃ b, alive'.cell u = _
         rw [ca u hu']
@@ -177,13 +155,14 @@ theorem grow_step (p : People) (k : Nat) (slots : Option (List Nat)) (inv : Inv 
 
 
 
-theorem set_scalar_spec (au : List Nat) (a : Arr) (n : Nat) (us : List Nat) (v : Val) (h : WF n a) (hus : ∀ u ∈ us, u < n) :
+theorem set_scalar_spec (au : List Nat) (a : Arr) (n : Nat) (us : List Nat) (v : Val) (h : WF n a) (hus : ∀ u ∈ us, u < n)
+    (hcast : castVal a.kind v = some v) :
     ∃ a', setItem codeVariant au a (.uids us) (.scalar v) = .ok a' ∧ WF n a' ∧ a'.kind = a.kind ∧ a'.default = a.default ∧
       a'.nan = a.nan ∧ ∀ x, a'.cell x = if x ∈ us then v else a.cell x := by
   have hr : inRange a us = true := by
     simp only [inRange, List.all_eq_true, decide_eq_true_eq]; intro u hu; have := hus u hu; have := h.le; omega
   refine ⟨{ a with raw := assignRaw a.raw us (.scalar v) }, ?_, ⟨h.used, by simpa using h.tot, by simpa using h.le⟩, rfl, rfl, rfl, ?_⟩
-  · cases codeVariant <;> simp [setItem, convertKey, hr, rhsOk]
+  · cases codeVariant <;> simp [setItem, convertKey, castRhs, hcast, hr, rhsOk]
   · intro x
     simp only [Arr.cell, assignRaw]
     rw [scatterConst_getD]
@@ -197,9 +176,11 @@ theorem request_step (p : People) (us : List Nat) (inv : Inv p) (hus : ∀ u ∈
     ∃ p', requestDeath p us = .ok p' ∧ Inv p' ∧ p'.n = p.n ∧ p'.auids = p.auids ∧ p'.alive = p.alive ∧ p'.ti = p.ti ∧
       p'.nAlive = p.nAlive ∧ p'.newDeaths = p.newDeaths ∧ p'.states = p.states ∧
       ∀ x, p'.tiDead.cell x = if x ∈ us then tiVal p.ti else p.tiDead.cell x := by
-  obtain ⟨td, hset, wf, _, hd, _, hc⟩ := set_scalar_spec p.auids p.tiDead p.n us (tiVal p.ti) inv.tiDead hus
+  obtain ⟨td, hset, wf, hkd, hd, _, hc⟩ := set_scalar_spec p.auids p.tiDead p.n us (tiVal p.ti) inv.tiDead hus
+    (by rw [inv.tiDeadKind]; exact castVal_float_num _)
   refine ⟨{ p with tiDead := td }, by simp [requestDeath, hset, bind, Except.bind]; rfl, ?_, rfl, rfl, rfl, rfl, rfl, rfl, rfl, hc⟩
-  exact { inv with tiDead := wf, tiDeadDefault := by show td.default = _; rw [hd]; exact inv.tiDeadDefault }
+  exact { inv with tiDead := wf, tiDeadDefault := by show td.default = _; rw [hd]; exact inv.tiDeadDefault,
+                   tiDeadKind := by show td.kind = _; rw [hkd]; exact inv.tiDeadKind }
 
 theorem deathUids_sub (p : People) : (deathUids p).Sublist p.auids := List.filter_sublist
 
@@ -210,6 +191,7 @@ theorem stepDie_step (p : People) (inv : Inv p) :
       ∀ x, p'.alive.cell x = if x ∈ deathUids p then .bool false else p.alive.cell x := by
   have hus : ∀ u ∈ deathUids p, u < p.n := fun u hu => inv.active u ((deathUids_sub p).subset hu)
   obtain ⟨al, hset, wf, hk, hd, _, hc⟩ := set_scalar_spec p.auids p.alive p.n (deathUids p) (.bool false) inv.alive hus
+    (by rw [inv.aliveKind.1]; exact castVal_of_bool _)
   refine ⟨{ p with alive := al }, by simp [stepDie, hset, bind, Except.bind]; rfl, ?_, rfl, rfl, rfl, rfl, rfl, rfl, rfl, hc⟩
   exact { inv with
     alive := wf
@@ -302,5 +284,21 @@ theorem cmp_eq_le (v w : Val) : (cmpVal .eq v w).truthy = true → (cmpVal .le v
       simp only [Val.truthy, beq_iff_eq, decide_eq_true_eq]
       intro h; rw [h]; exact Rat.le_refl
     · simp [Val.truthy]
+
+theorem castVal_float_arith (op : Arith) (a b : Val) : castVal .float (arithVal op a b) = some (arithVal op a b) := by
+  unfold arithVal
+  split
+  · rfl
+  · split <;> simp [castVal, Val.toRat?]
+
+theorem castList_float_arith (op : Arith) (f : Nat → Val) (b : Val) : ∀ us : List Nat,
+    (us.map (fun u => arithVal op (f u) b)).mapM (castVal .float) = some (us.map (fun u => arithVal op (f u) b))
+  | [] => rfl
+  | u :: us => by
+      simp only [List.map_cons, List.mapM_cons, castVal_float_arith, bind, Option.bind, castList_float_arith op f b us]
+      rfl
+
+theorem wf_fresh (k : Kind) (nv : Val) (d : Default) : WF 0 (fresh k nv d) := ⟨rfl, rfl, by simp [fresh]⟩
+
 
 end StarsimModel.C10
